@@ -432,7 +432,7 @@ def pools():
     return _POOLS
 
 
-QUICK_SAMPLE = {'A': 500, 'B': 2000, 'C': 300, 'D': 200, 'E': 1500, 'F': 150, 'G': 1200}
+QUICK_SAMPLE = {'A': 160, 'B': 700, 'C': 200, 'D': 150, 'E': 700, 'F': 100, 'G': 500}
 
 
 def plan(tier, seed):
@@ -500,7 +500,8 @@ def case_a(ctx, member):
     _, name, op_id, off = member
     prog = corpus.Prog(name)
     prog.stage(ctx.dir)
-    lines = prog.source().decode('latin-1').split('\n')
+    prog_text = prog.source().decode('latin-1')
+    lines = prog_text.split('\n')
     ops = []
     for l in lines:
         p = split_line(l) if l.strip() and not l.lstrip().startswith(';') else None
@@ -523,7 +524,8 @@ def case_a(ctx, member):
         ctx.write(name + '.asm', text)
         r = run_asl(ctx, name + '.asm', flags)
         # mutations can create unbounded repetition counts: termination is only claimed when the mutated lines stay clear of such constructs
-        claim = not any(NO_TERM_RE.search(v) or NO_TERM_RE.search(lines[i]) for i, v in active.items())
+        # ... and when the program has no repetition construct at all that a mutated value could feed
+        claim = not NO_TERM_RE.search(prog_text) and not any(NO_TERM_RE.search(v) for v in active.values())
         key = judge_asl(out, r, 'A:%s' % name, claim_termination=claim)
         out.obs['mutated_lines_executed'] += len(active)
         if key is None:
